@@ -113,6 +113,32 @@ func (cc *checkCtx) gather() {
 			keys = append(keys, k)
 		}
 	}
+	// site clauses of an `inline` contract are checked in the context of each function that inlines it:
+	// contracted callers of such a callee are verified under the property as well
+	inlineTagged := map[string]bool{}
+	for k, c := range e.contracts {
+		if c.Inline && contractHasProp(c, cc.prop) {
+			inlineTagged[k] = true
+		}
+	}
+	if len(inlineTagged) > 0 {
+		have := map[string]bool{}
+		for _, k := range keys {
+			have[k] = true
+		}
+		for k, c := range e.contracts {
+			if have[k] || c.External || c.NoVerify || c.Trusted != "" || c.Inline {
+				continue
+			}
+			fn, ok := e.funcs[k]
+			if !ok || fn.Blocks == nil {
+				continue
+			}
+			if e.callsInlineTagged(fn, inlineTagged, map[*ssa.Function]bool{}, 0) {
+				keys = append(keys, k)
+			}
+		}
+	}
 	sort.Strings(keys)
 	type job struct {
 		key string
@@ -214,6 +240,37 @@ func (cc *checkCtx) gather() {
 		}
 		cc.obls = append(cc.obls, e.lemmaObligation(lm))
 	}
+}
+
+// does fn reach (through uncontracted or inline callees only, i.e. code that is inlined into fn) a callee
+// whose inline contract is tagged for the property?
+func (e *Engine) callsInlineTagged(fn *ssa.Function, tagged map[string]bool, seen map[*ssa.Function]bool, depth int) bool {
+	if seen[fn] || depth > 6 {
+		return false
+	}
+	seen[fn] = true
+	for _, b := range fn.Blocks {
+		for _, in := range b.Instrs {
+			ci, ok := in.(ssa.CallInstruction)
+			if !ok {
+				continue
+			}
+			callee := ci.Common().StaticCallee()
+			if callee == nil || !isInRepo(callee) || callee.Blocks == nil {
+				continue
+			}
+			k := fnName(callee)
+			if tagged[k] {
+				return true
+			}
+			if c := e.contracts[k]; c == nil || c.Inline {
+				if e.callsInlineTagged(callee, tagged, seen, depth+1) {
+					return true
+				}
+			}
+		}
+	}
+	return false
 }
 
 func (e *Engine) lemmaObligation(lm *Lemma) *Obligation {
